@@ -32,8 +32,50 @@ func CalleeName(c *ssa.CallCommon) string {
 		if f, ok := v.Fn.(*ssa.Function); ok {
 			return fnName(f)
 		}
+	case *ssa.UnOp:
+		// call through a package-level function variable that is assigned exactly once, in the
+		// package initialiser, a function value (e.g. `var SignLocator = arvados.SignLocator`)
+		if g, ok := v.X.(*ssa.Global); ok && v.Op == token.MUL {
+			if f := globalFuncValue(g); f != nil {
+				return fnName(f)
+			}
+		}
 	}
 	return "dynamic"
+}
+
+var globalFuncCache = map[*ssa.Global]*ssa.Function{}
+
+func globalFuncValue(g *ssa.Global) *ssa.Function {
+	if f, ok := globalFuncCache[g]; ok {
+		return f
+	}
+	var found *ssa.Function
+	n := 0
+	if g.Pkg != nil {
+		for _, m := range g.Pkg.Members {
+			fn, ok := m.(*ssa.Function)
+			if !ok {
+				continue
+			}
+			fns := append([]*ssa.Function{fn}, Closures(fn)...)
+			for _, f := range fns {
+				allInstrs(f, func(in ssa.Instruction) {
+					if st, ok := in.(*ssa.Store); ok && st.Addr == ssa.Value(g) {
+						n++
+						if fv, ok := Strip(st.Val).(*ssa.Function); ok && f.Name() == "init" {
+							found = fv
+						}
+					}
+				})
+			}
+		}
+	}
+	if n != 1 {
+		found = nil
+	}
+	globalFuncCache[g] = found
+	return found
 }
 
 func fnName(f *ssa.Function) string {
